@@ -175,7 +175,7 @@ def random_type(rng, depth=0):
 
 # words: lower-case letters optionally followed by digits (the C01 domain)
 WORDS_SAFE = ["get", "set", "transfer", "from", "to", "mint", "burn", "item", "config", "owner",
-              "tick", "update", "admin", "list", "info", "claim", "vote", "pause", "limit", "state"]
+              "tick", "update", "admin", "list", "info", "claim", "vote", "pause", "limit", "state", "phantom"]
 WORDS_DIGIT = ["v2", "transfer2", "x1", "admin9", "q7", "step10", "a1"]
 WORDS_SINGLE = ["a", "b", "x", "y", "k"]
 
@@ -249,7 +249,9 @@ def extended_name(rng):
 
 
 ARG_WORDS = ["amount", "to", "from", "owner", "id", "a", "b", "x", "y", "value", "key", "flag", "n",
-             "denom", "who", "memo", "arg1", "arg2", "v2", "_unused", "_x", "data_in", "items", "limit0"]
+             "denom", "who", "memo", "arg1", "arg2", "v2", "_unused", "_x", "data_in", "items", "limit0",
+             # names of parameters / locals of the generated dispatch, helper and proxy functions
+             "contract", "ctx", "msg", "deps", "env", "info", "querier", "funds", "contract_addr"]
 RAW_ARGS = ["r#type", "r#in", "r#match", "r#ref"]
 
 
@@ -263,7 +265,7 @@ def arg_name(rng, taken):
             continue
         if rng.random() < 0.2:
             n = n + "_" + rng.choice(ARG_WORDS).lstrip("_")
-        if n not in taken and n not in RUST_RESERVED:
+        if n not in taken and (n not in RUST_RESERVED or n == "ctx"):
             return n
     raise RuntimeError("arg names exhausted")
 
